@@ -475,7 +475,7 @@ let exec (c : cursor) : outcome =
       Obs (Printf.sprintf "valid %d dead %d seed %d draws %d" (if valid then 1 else 0)
              (if sel.sel_dead_decided then 1 else 0) (if sel.sel_seed_decided then 1 else 0)
              (int_of_nat sel.sel_draws_used))
-  | "ROUND" | "ROUNDSEND" | "HS" | "HSEND" | "GROUND" -> Obs "ok"
+  | "ROUND" | "ROUNDSEND" | "HS" | "HSEND" | "GROUND" | "HONEST" -> Obs "ok"
   | "LEV" ->
       let ev =
         match next c with
@@ -682,6 +682,7 @@ let () =
                    "dead peers outnumber live peers but the round contacted no dead peer"
              | "ROUND" -> Monitor.on_round (next_int mc)
              | "ROUNDSEND" -> Monitor.on_rounds_end (next_int mc)
+             | "HONEST" -> Monitor.next_catchup_honest := true
              | "HS" -> let a = next_int mc in let b = next_int mc in Monitor.on_hs_begin a b
              | "HSEND" -> let a = next_int mc in let b = next_int mc in Monitor.on_hs_end a b
              | "DELTA" ->
